@@ -500,6 +500,61 @@ pub fn run(c: &mut Ctx) {
             });
         }
     }
+    // the text decoder of a channel id: hostile strings give a value or an error
+    c.case("ChannelId|from_str", |c| {
+        use std::str::FromStr;
+        let mut rng = c.rng("ChannelId|from_str");
+        let alphabet: &[u8] = b"ABCDEFGHIJKLMNOPQRSTUVWXYZabcdefghijklmnopqrstuvwxyz0123456789+/";
+        let mut inputs: Vec<String> = vec![];
+        for len in 0..=100usize {
+            // all data characters, no padding
+            inputs.push((0..len).map(|_| alphabet[(rng.next_u32() as usize) % 64] as char).collect());
+            inputs.push("A".repeat(len));
+            inputs.push("/".repeat(len));
+            // with one or two padding characters at the end
+            if len >= 2 {
+                let body: String = (0..len - 1).map(|_| alphabet[(rng.next_u32() as usize) % 64] as char).collect();
+                inputs.push(format!("{}=", body));
+                inputs.push(format!("{}==", &body[..len - 2]));
+            }
+        }
+        // honest ids with the trailing padding replaced, truncated, extended, with foreign characters
+        for _ in 0..c.tier.pick(20, 300) {
+            let mut b = [0u8; 32];
+            rng.fill_bytes(&mut b);
+            let honest = base64::encode(b);
+            inputs.push(honest.clone());
+            inputs.push(honest.replace('=', "A"));
+            inputs.push(honest[..honest.len() - 1].to_string());
+            inputs.push(format!("{}A", honest));
+            inputs.push(format!("{}=", honest));
+            inputs.push(format!("={}", honest));
+            let mut h = honest.clone().into_bytes();
+            let pos = (rng.next_u32() as usize) % h.len();
+            h[pos] = [b'*', b' ', b'\n', 0u8, 0xc3][(rng.next_u32() as usize) % 5];
+            inputs.push(String::from_utf8_lossy(&h).into_owned());
+        }
+        inputs.push("\u{1F600}".repeat(11));
+        for inp in inputs {
+            c.eval();
+            c.distinct(&format!("ChannelId|from_str|{}|{}", inp.len(), hex(&inp.as_bytes()[..inp.len().min(24)])));
+            c.count("inputs_channel_id_text", 1);
+            let base = alloc::reset();
+            let r = guard(|| zkabacus_crypto::ChannelId::from_str(&inp).map(|c| c.to_bytes()));
+            let st = alloc::stats(base);
+            if alloc::enabled() && st.largest > ALLOC_SINGLE_FACTOR * inp.len() + ALLOC_SINGLE_SLACK {
+                c.violation("C16 over-allocation type=ChannelId(text) mutation=text", json!({"input": inp, "largest_single_request": st.largest}));
+            }
+            match r {
+                Err(p) => c.violation(
+                    &format!("C16 decode-panic type=ChannelId(text) mutation=text:len{}{} loc={}", inp.len(), if inp.contains('=') { "+padding" } else { "" }, repo_rel(&p.location)),
+                    json!({"input": inp, "panic": p.message, "location": p.location}),
+                ),
+                Ok(Ok(_)) => c.count("channel_id_text_decoded_ok", 1),
+                Ok(Err(_)) => c.count("channel_id_text_decoded_err", 1),
+            }
+        }
+    });
     if n_len_atoms == 0 {
         c.inconclusive("C16: no length prefix was found in any honest encoding");
     }
